@@ -1,4 +1,4 @@
-// @file host=src/lib.rs mod=verif_layout
+// @file host=src/lib.rs mod=verif_layout also_features=alloc,serde,zeroize,const-default
 //! Engine-K obligations for the memory layout (C01), per instantiation: size_of / align_of of GenericArray<T, N>
 //! equal those of [T; N] (computed by rustc for the very types the crate defines), element i lives at byte offset
 //! i * size_of::<T>(), and a write through the slice view is read back through the native-array view.
